@@ -296,17 +296,27 @@ class Mutations(Driver):
             missing = len(unsp) <= j or unsp[j] is None
             try:
                 iv = bool(tx.is_solution_ok(j, flags=flags_impl))
+                if missing:
+                    # "never reported valid": whatever flags the caller validates with
+                    iv = iv or bool(tx.is_solution_ok(j)) or bool(tx.is_solution_ok(j, flags=0)) or bool(tx.is_solution_ok(j, flags=R.P2SH))
             except Exception as e:
                 return BAD("validate-raises", "is_solution_ok returns a verdict", "EXC %s: %s" % (type(e).__name__, e), clause="validate-raises",
                            mu=ms, kind=u["kind"])
+            base_ok, base_why = c05.ref_valid(coin, orig, i, orig_spent[i][1], orig_spent[i][0])
+            if not ms:
+                if not base_ok or not iv:
+                    return BAD("baseline", "freshly signed input %d validates (reference: %s %s)" % (i, base_ok, base_why), "is_solution_ok=%s" % iv,
+                               clause="signed-input-invalid" if iv == base_ok else "baseline-verdict-differs", kind=u["kind"], ht=u["ht"], coin=coin)
+                kept += 1
+                continue
             if missing:
                 exp, why = False, "spent output unknown"
             else:
                 amount, spk = unsp[j].coin_value, bytes(unsp[j].script)
                 exp, why = c05.ref_valid(coin, txd, j, spk, amount)
-                # secondary oracle (guards the reference): field-level view
-                if not ms or True:
-                    wstyle = coin in FORKID or u["kind"] in c05.WITNESS_KINDS if i < 2 else coin in FORKID
+                if base_ok:
+                    # secondary oracle (guards the reference): field-level view, relative to the valid baseline
+                    wstyle = (coin in FORKID or u["kind"] in c05.WITNESS_KINDS) if i < 2 else coin in FORKID
                     hts = sig_hashtypes(orig, i, sc.p2s)
                     view_same = all(commit_view(orig, i, h, wstyle, orig_spent[i][0]) == commit_view(txd, j, h, wstyle, amount) for h in hts)
                     unlock_same = (orig["ins"][i][2], orig["ins"][i][4]) == (txd["ins"][j][2], txd["ins"][j][4])
